@@ -892,6 +892,7 @@ fn brute_force_cost_f64(ws: &[f64]) -> f64 {
 
 fn oracle_inner(ws: &[u128], fl: Option<&[f64]>, ty: &str, rng: &mut Rng, rep: &mut Report, brute: bool, fails: &mut Vec<(&'static str, String)>) {
     let replay = || format!("huff {} | {}", ty, weights_str(ws));
+    crate::util::set_case(&replay());
     let n = ws.len();
     let opts: Vec<Option<u128>> = ws.iter().map(|&w| Some(w)).collect();
     let rebuild = |t: &str| match fl {
@@ -1100,6 +1101,7 @@ fn oracle_inner(ws: &[u128], fl: Option<&[f64]>, ty: &str, rng: &mut Rng, rep: &
         }
         rep.eval("C09");
         for prefix in [true, false] {
+            crate::util::set_case(&format!("{} : encode {} {:x} (a symbol outside the alphabet)", replay(), if prefix { "prefix" } else { "suffix" }, s));
             let (bits, st) = encode_with(&e, prefix, s as usize, None);
             if st != "impossible" || !bits.is_empty() {
                 c09.push(format!("{} {:x} : out-of-alphabet symbol not rejected", if prefix { "prefix" } else { "suffix" }, s));
